@@ -4,7 +4,7 @@ import re
 TABLE = [
     (r"An explicit assertion failed", "assert"),
     (r"unwrap of `nil`|nil object, looking up|LOGIC ERROR IN CODE >> .*nil", "nil"),
-    (r"out of bounds|removal index|could not fit in an int|index out of range|out of range for slice|byte index \d+ is out of", "index"),
+    (r"out of bounds|removal index|could not fit in an int|index out of range|out of range for slice|byte index \d+ is out of|the range is reversed|not on a character boundary", "index"),
     (r"key error", "key"),
     (r"/ by 0|% by 0|attempt to divide by zero|attempt to calculate the remainder with a divisor of zero|division by zero", "zerodiv"),
     (r"attempt to (add|subtract|multiply|negate|shift left|shift right) with overflow|attempt to (divide|calculate the remainder) with overflow|overflow", "overflow"),
